@@ -1,8 +1,178 @@
-import PoolModel.C04
+import PoolProofs.C04LemmasScript
 
-/-! # C04 — headline theorems (being filled in) -/
+/-!
+# C04 — account outputs need both signatures before expiry and only the trader's after
+
+Headline theorems.  Scripts are the ones `Builder` produces from the *regenerated* call lists of
+`poolscript.accountWitnessScript` / `TaprootExpiryScript`; the interpreter is the model of btcd's engine under
+`StandardVerifyFlags`; signature verification is a parameter `sigOK` (ideal in `C04_wrong_params_invalid`).
+-/
+set_option linter.unusedSimpArgs false
 namespace Pool.C04
 
-theorem C04_placeholder : scriptNumBytes 0 = [] := by decide
+/-- **Script numbers**: for every uint32 expiry the bytes `scriptNum.Bytes` produces decode back (minimal
+encoding, 5-byte CLTV limit) to the same number, and their length is 0/1/2/3/4/5 exactly on the boundaries
+128, 32768, 2^23, 2^31. -/
+theorem scriptNum_roundtrip (n : Nat) (h : n < 2 ^ 32) :
+    makeScriptNum (scriptNumBytes n) true cltvMaxScriptNumLen = .ok (n : Int) ∧
+    (scriptNumBytes n).length =
+      (if n = 0 then 0 else if n < 128 then 1 else if n < 32768 then 2 else if n < 8388608 then 3
+       else if n < 2147483648 then 4 else 5) := by
+  refine ⟨(numOK_scriptNum n h).dec, ?_⟩
+  rw [scriptNumBytes_form n h]
+  repeat' split
+  all_goals first | omega | simp
+
+example : scriptNumBytes 52560 = [0x50, 0xcd, 0x00] := by decide
+example : scriptNumBytes 127 = [0x7f] ∧ scriptNumBytes 128 = [0x80, 0x00] ∧ scriptNumBytes 32767 = [0xff, 0x7f] ∧
+    scriptNumBytes 32768 = [0x00, 0x80, 0x00] ∧ scriptNumBytes 8388607 = [0xff, 0xff, 0x7f] := by decide
+
+/-- BIP-65 condition as a proposition: same lock-time type, expiry reached, input not final -/
+def CLTV (lockTime sequence expiry : Nat) : Prop :=
+  ((lockTime < LockTimeThreshold) ↔ (expiry < LockTimeThreshold)) ∧ expiry ≤ lockTime ∧
+    sequence ≠ MaxTxInSequenceNum
+
+theorem cltv_iff (lt sq e : Nat) : cltvSatisfied lt sq e = true ↔ CLTV lt sq e := by
+  simp [cltvSatisfied, CLTV, Bool.and_eq_true, beq_iff_eq, decide_eq_decide, and_assoc]
+
+/-- **p2wsh, exact outcome** of spending Pool's version-0 account output with the witness `stack ++ [script]`
+(stack given bottom first, as in the witness): which error the engine reports, or success. -/
+theorem C04_p2wsh_outcome (lt sq : Nat) (sigOK : Bytes → Bytes → Bool) (e : Nat) (tk ak : Bytes)
+    (htk : tk.length = 33) (hak : ak.length = 33) (he : e < 2 ^ 32) (stack : List Bytes)
+    (hsz : ∀ x ∈ stack, x.length ≤ MaxScriptElementSize) :
+    verifyP2WSH (stdCtx false lt sq sigOK) (Sha256.sha256 (accountWitnessScript e tk ak))
+        (stack ++ [accountWitnessScript e tk ak]) =
+      match stack.reverse with
+      | [] => .error .invalidStackOperation
+      | [σt] =>
+        if σt = [] then .error .checkSigVerify
+        else if sigOK tk σt = false then .error .nullFail
+        else .error .invalidStackOperation
+      | σt :: σa :: rest =>
+        if σt = [] then .error .checkSigVerify
+        else if sigOK tk σt = false then .error .nullFail
+        else if σa = [] then
+          (if cltvSatisfied lt sq e then v0Final (scriptNumBytes e) rest else .error .unsatisfiedLockTime)
+        else if sigOK ak σa = false then .error .nullFail
+        else v0Final [1] rest := by
+  have hlen : ¬ (accountWitnessScript e tk ak).length > MaxScriptSize := by
+    rw [accountWitnessScript_eq e tk ak htk hak he]
+    have := pushNumBytes_length e he
+    simp [htk, hak, MaxScriptSize]
+    split at this <;> (try split at this) <;> (try split at this) <;> (try split at this) <;> (try split at this) <;> omega
+  have hany : (stack.reverse.any fun x => decide (x.length > MaxScriptElementSize)) = false := by
+    simp only [List.any_eq_false, List.mem_reverse, decide_eq_true_eq]
+    intro x hx; have := hsz x hx; omega
+  have hrun := p2wsh_run lt sq sigOK e tk ak (scriptNumBytes e) (by omega) (by omega) (numOK_scriptNum e he)
+    stack.reverse
+  simp only [verifyP2WSH, List.reverse_append, List.reverse_cons, List.reverse_nil, List.nil_append,
+    List.singleton_append, hlen, if_false, ne_eq, not_true_eq_false, parse_accountWitnessScript e tk ak htk hak he,
+    hany, Bool.false_eq_true]
+  exact hrun
+
+/-- **C04, p2wsh.**  Pool's version-0 account output is spendable by the witness `stack ++ [script]` exactly
+when the stack is `[σa, σt]` with a valid (non-empty) trader signature and either a valid auctioneer signature
+(any lock time) or an *empty* auctioneer element together with BIP-65 satisfied for the expiry (and
+`expiry ≠ 0`: the CLTV argument stays on the stack and must be truthy). -/
+theorem C04_p2wsh_spendable_iff (lt sq : Nat) (sigOK : Bytes → Bytes → Bool) (e : Nat) (tk ak : Bytes)
+    (htk : tk.length = 33) (hak : ak.length = 33) (he : e < 2 ^ 32) (stack : List Bytes)
+    (hsz : ∀ x ∈ stack, x.length ≤ MaxScriptElementSize) :
+    verifyP2WSH (stdCtx false lt sq sigOK) (Sha256.sha256 (accountWitnessScript e tk ak))
+        (stack ++ [accountWitnessScript e tk ak]) = .ok () ↔
+    ∃ σa σt, stack = [σa, σt] ∧ σt ≠ [] ∧ sigOK tk σt = true ∧
+      ((σa ≠ [] ∧ sigOK ak σa = true) ∨ (σa = [] ∧ CLTV lt sq e ∧ e ≠ 0)) := by
+  rw [C04_p2wsh_outcome lt sq sigOK e tk ak htk hak he stack hsz, ← cltv_iff]
+  have hN := numOK_scriptNum e he
+  constructor
+  · intro h
+    generalize hr : stack.reverse = r at h
+    match r, hr, h with
+    | [], _, h => simp at h
+    | [σt], _, h =>
+      by_cases a : σt = [] <;> by_cases b : sigOK tk σt = false <;> simp [a, b] at h
+    | σt :: σa :: rest, hr, h =>
+      have hs : stack = rest.reverse ++ [σa, σt] := by
+        have := congrArg List.reverse hr; simpa using this
+      simp only at h
+      by_cases h1 : σt = []
+      · simp [h1] at h
+      by_cases h2 : sigOK tk σt = false
+      · simp [h1, h2] at h
+      simp only [h1, h2, if_false] at h
+      have h2' : sigOK tk σt = true := by simpa using h2
+      by_cases h3 : σa = []
+      · simp only [h3, if_true] at h
+        by_cases h4 : cltvSatisfied lt sq e = true
+        · simp only [h4, if_true, v0Final, hN.truthy] at h
+          by_cases h5 : rest = []
+          · subst h5
+            by_cases h6 : e = 0
+            · simp [h6] at h
+            · exact ⟨σa, σt, by simpa using hs, h1, h2', Or.inr ⟨h3, h4, h6⟩⟩
+          · simp [h5] at h
+        · simp [h4] at h
+      · simp only [h3, if_false] at h
+        by_cases h4 : sigOK ak σa = false
+        · simp [h4] at h
+        · simp only [h4, if_false, v0Final] at h
+          by_cases h5 : rest = []
+          · subst h5
+            exact ⟨σa, σt, by simpa using hs, h1, h2', Or.inl ⟨h3, by simpa using h4⟩⟩
+          · simp [h5] at h
+  · rintro ⟨σa, σt, rfl, h1, h2, h3 | h3⟩
+    · simp [h1, h2, h3.1, h3.2, v0Final, asBool_one]
+    · simp [h1, h2, h3.1, h3.2.1, v0Final, hN.truthy, h3.2.2]
+
+/-- error code of a verdict (`none` = accepted); only used to state concrete examples decidably -/
+def code : Except Err Unit → Option Err
+  | .ok _ => none
+  | .error e => some e
+
+def exTk : Bytes := List.replicate 33 2
+def exAk : Bytes := List.replicate 33 3
+/-- an ideal `sigOK` for the examples: the trader's signature is the byte `7`, the auctioneer's the byte `9` -/
+def exOK : Bytes → Bytes → Bool := fun pk σ => (pk == exTk && σ == [7]) || (pk == exAk && σ == [9])
+
+/-- non-vacuity: a joint spend and an expired trader-only spend are accepted; an early one, an
+auctioneer-only one and expiry 0 are not -/
+example :
+    code (runScript (stdCtx false 0 0 exOK) (accountInstrs 52560 exTk exAk) [[7], [9]]) = none ∧
+    code (runScript (stdCtx false 52560 0 exOK) (accountInstrs 52560 exTk exAk) [[7], []]) = none ∧
+    code (runScript (stdCtx false 52559 0 exOK) (accountInstrs 52560 exTk exAk) [[7], []]) = some .unsatisfiedLockTime ∧
+    code (runScript (stdCtx false 52560 0xffffffff exOK) (accountInstrs 52560 exTk exAk) [[7], []]) = some .unsatisfiedLockTime ∧
+    code (runScript (stdCtx false 52560 0 exOK) (accountInstrs 52560 exTk exAk) [[], [9]]) = some .checkSigVerify ∧
+    code (runScript (stdCtx false 5 0 exOK) (accountInstrs 0 exTk exAk) [[7], []]) = some .evalFalse := by
+  decide
+
+/-- **Trader-only spend with an earlier lock time is invalid** (error code included). -/
+theorem C04_p2wsh_trader_only_early (lt sq : Nat) (sigOK : Bytes → Bytes → Bool) (e : Nat) (tk ak σt : Bytes)
+    (htk : tk.length = 33) (hak : ak.length = 33) (he : e < 2 ^ 32) (hσ : σt.length ≤ MaxScriptElementSize)
+    (hearly : lt < e) :
+    verifyP2WSH (stdCtx false lt sq sigOK) (Sha256.sha256 (accountWitnessScript e tk ak))
+        [[], σt, accountWitnessScript e tk ak] ≠ .ok () := by
+  have := (C04_p2wsh_spendable_iff lt sq sigOK e tk ak htk hak he [[], σt]
+    (by intro x hx; simp at hx; rcases hx with rfl | rfl <;> simp [MaxScriptElementSize] <;> exact hσ))
+  intro h
+  obtain ⟨σa, σt', hst, _, _, h3 | h3⟩ := this.mp (by simpa using h)
+  · simp at hst; exact h3.1 hst.1
+  · have := h3.2.1.2.1; omega
+
+/-- **Auctioneer-only spend is invalid**: whatever the auctioneer puts in its slot, an empty (or otherwise
+invalid) trader element never passes. -/
+theorem C04_p2wsh_auctioneer_only (lt sq : Nat) (sigOK : Bytes → Bytes → Bool) (e : Nat) (tk ak σa σt : Bytes)
+    (htk : tk.length = 33) (hak : ak.length = 33) (he : e < 2 ^ 32)
+    (hσa : σa.length ≤ MaxScriptElementSize) (hσt : σt.length ≤ MaxScriptElementSize)
+    (hno : σt = [] ∨ sigOK tk σt = false) :
+    verifyP2WSH (stdCtx false lt sq sigOK) (Sha256.sha256 (accountWitnessScript e tk ak))
+        [σa, σt, accountWitnessScript e tk ak] ≠ .ok () := by
+  have := (C04_p2wsh_spendable_iff lt sq sigOK e tk ak htk hak he [σa, σt]
+    (by intro x hx; simp at hx; rcases hx with rfl | rfl <;> assumption))
+  intro h
+  obtain ⟨σa', σt', hst, h1, h2, _⟩ := this.mp (by simpa using h)
+  simp at hst
+  obtain ⟨rfl, rfl⟩ := hst
+  rcases hno with h | h
+  · exact h1 h
+  · rw [h] at h2; exact absurd h2 (by simp)
 
 end Pool.C04
